@@ -16,24 +16,36 @@ from fractions import Fraction as F
 import numpy as np
 
 from .. import families, tv, tvspec, decide, runner, findings, symx
-from ..spec import OpSpec, NodeSpec, EdgeSpec, ModelSpec, FP, build_python
+from ..spec import OpSpec, NodeSpec, EdgeSpec, EdgeTplSpec, ModelSpec, FP, build_python
 from ..report import Report
 from .c01 import FUNCS
 from .c06 import TAG, _with_smap, _norm_label
 
 
-def base_model():
+def base_model(variant='plain'):
+    """plain: every node has its own NodeTemplate.  shared: n0 and n1 are one NodeTemplate OBJECT (a key that addresses n0
+    only must leave n1 alone).  edge-input: the edge n0 -> n1 carries an operator with a second, target-side input."""
     fp = FP()
     ops = {'o1': families.op_two_inputs(fp), 'li': families.op_leaky(fp)}
     ops['o1'].vars['w'] = ('input', F(0))
     ops['o1'].vars['u'] = ('input', F(0))
     ops['li'].vars['u'] = ('input', F(0))
-    nodes = {'n0': NodeSpec(['o1'], families._node_overrides(fp, ops, ['o1'])),
-             'n1': NodeSpec(['o1'], families._node_overrides(fp, ops, ['o1'])),
-             'm0': NodeSpec(['li'], families._node_overrides(fp, ops, ['li']))}
-    edges = [EdgeSpec('n0/o1/x', 'n1/o1/u', fp()), EdgeSpec('m0/li/x', 'n0/o1/u', fp()),
-             EdgeSpec('n1/o1/x', 'm0/li/u', fp())]
-    return ModelSpec('base', ops, nodes, edges), fp
+    etp = {}
+    if variant == 'shared':
+        ov = families._node_overrides(fp, ops, ['o1'])
+        nodes = {'n0': NodeSpec(['o1'], dict(ov), template='sh'), 'n1': NodeSpec(['o1'], dict(ov), template='sh')}
+    else:
+        nodes = {'n0': NodeSpec(['o1'], families._node_overrides(fp, ops, ['o1'])),
+                 'n1': NodeSpec(['o1'], families._node_overrides(fp, ops, ['o1']))}
+    nodes['m0'] = NodeSpec(['li'], families._node_overrides(fp, ops, ['li']))
+    if variant == 'edge-input':
+        ops['cpl'] = families.op_diff_alg(fp)
+        etp = {'ei': EdgeTplSpec('ei', ['cpl'])}
+        e0 = EdgeSpec('n0/o1/x', 'n1/o1/u', fp(), template='ei', var_map={'qs': 'source', 'qt': 'n1/o1/x'})
+    else:
+        e0 = EdgeSpec('n0/o1/x', 'n1/o1/u', fp())
+    edges = [e0, EdgeSpec('m0/li/x', 'n0/o1/u', fp()), EdgeSpec('n1/o1/x', 'm0/li/u', fp())]
+    return ModelSpec('base', ops, nodes, edges, etp), fp
 
 
 SCENARIOS = {
@@ -42,14 +54,17 @@ SCENARIOS = {
     'edge-weight': dict(map={'w': dict(vars=['weight'], edges=[('n0/o1/x', 'n1/o1/u')]),
                              'c': dict(vars=['o1/c'], nodes=['n1'])}),
     'with-input': dict(map={'k': dict(vars=['o1/k'], nodes=['n1'])}, input='n0/o1/w'),
+    'shared-template': dict(map={'k': dict(vars=['o1/k'], nodes=['n0']), 'g': dict(vars=['o1/g'], nodes=['n1'])},
+                            variant='shared'),
+    'edge-input': dict(map={'k': dict(vars=['o1/k'], nodes=['n0'])}, variant='edge-input'),
 }
 
 
 def job_fn(job):
     import pyrates.backend.base.base_backend as bb
     from pyrates import grid_search
-    base, fp = base_model()
     sc = SCENARIOS[job['scenario']]
+    base, fp = base_model(sc.get('variant', 'plain'))
     rows = job['rows']
     # grid: one column per swept key plus one column per state variable (distinct initial values per copy)
     state_keys = {'x_n0': dict(vars=['o1/x'], nodes=['n0']), 'x_n1': dict(vars=['o1/x'], nodes=['n1']),
@@ -68,9 +83,12 @@ def job_fn(job):
         gi = order[r]
         for n, ns in base.nodes.items():
             nn = copy.deepcopy(ns)
+            nn.template = None          # the expected model is per node; sharing is a property of the input only
             nodes[f"{cname(r)}/{n}"] = nn
         for e in base.edges:
-            edges.append(EdgeSpec(f"{cname(r)}/{e.src}", f"{cname(r)}/{e.tgt}", e.weight))
+            edges.append(EdgeSpec(f"{cname(r)}/{e.src}", f"{cname(r)}/{e.tgt}", e.weight, template=e.template,
+                                  var_map={k_: (v_ if v_ == 'source' else f"{cname(r)}/{v_}")
+                                           for k_, v_ in e.var_map.items()}))
         for key, m in pmap.items():
             val = grid[key][gi]
             if 'nodes' in m:
@@ -82,8 +100,8 @@ def job_fn(job):
                 for (s, t) in m['edges']:
                     for i, e in enumerate(edges):
                         if e.src == f"{cname(r)}/{s}" and e.tgt == f"{cname(r)}/{t}":
-                            edges[i] = EdgeSpec(e.src, e.tgt, val)
-    exp = ModelSpec('top_lvl', base.ops, nodes, edges, note=f"grid_search {job['scenario']} rows={rows}")
+                            edges[i] = EdgeSpec(e.src, e.tgt, val, template=e.template, var_map=e.var_map)
+    exp = ModelSpec('top_lvl', base.ops, nodes, edges, base.edge_tpls, note=f"grid_search {job['scenario']} rows={rows}")
     ct = build_python(base)
     cap = {}
 
